@@ -29,6 +29,21 @@ func main() {
 	replay := ""
 	for i := 2; i < len(os.Args); i++ {
 		switch os.Args[i] {
+		case "--worker":
+			// internal: mc <ID> --worker <arg>   (a sub-process of a check)
+			p := core.Lookup(id)
+			if p == nil || p.Worker == nil {
+				fmt.Println("INTERNAL-ERROR: no worker for", id)
+				os.Exit(2)
+			}
+			arg := ""
+			if i+1 < len(os.Args) {
+				arg = os.Args[i+1]
+			}
+			if tier != "thorough" {
+				tier = "quick"
+			}
+			os.Exit(p.Worker(core.NewCtx(p, tier, 0), arg))
 		case "--tier":
 			i++
 			tier = os.Args[i]
